@@ -13,6 +13,7 @@ import (
 	"github.com/sboehler/knut/lib/model/posting"
 	"github.com/sboehler/knut/lib/model/price"
 	"github.com/sboehler/knut/lib/model/transaction"
+	"github.com/sboehler/knut/lib/syntax"
 	"github.com/shopspring/decimal"
 )
 
@@ -178,10 +179,38 @@ func CloseAccounts(j *Builder, reg *model.Registry, enable bool, partition date.
 func Sort() *Processor {
 	return &Processor{
 		DayEnd: func(d *Day) error {
+			// Directives of one day arrive in the order in which the files were
+			// loaded, which depends on goroutine scheduling. Order them by their
+			// position in the sources so that the result is reproducible.
+			compare.Sort(d.Prices, func(p1, p2 *model.Price) compare.Order {
+				return compareSource(p1.Src != nil, p2.Src != nil, func() (syntax.Range, syntax.Range) { return p1.Src.Range, p2.Src.Range })
+			})
+			compare.Sort(d.Openings, func(o1, o2 *model.Open) compare.Order {
+				return compareSource(o1.Src != nil, o2.Src != nil, func() (syntax.Range, syntax.Range) { return o1.Src.Range, o2.Src.Range })
+			})
 			compare.Sort(d.Transactions, transaction.Compare)
+			compare.Sort(d.Assertions, func(a1, a2 *model.Assertion) compare.Order {
+				return compareSource(a1.Src != nil, a2.Src != nil, func() (syntax.Range, syntax.Range) { return a1.Src.Range, a2.Src.Range })
+			})
+			compare.Sort(d.Closings, func(c1, c2 *model.Close) compare.Order {
+				return compareSource(c1.Src != nil, c2.Src != nil, func() (syntax.Range, syntax.Range) { return c1.Src.Range, c2.Src.Range })
+			})
 			return nil
 		},
 	}
+}
+
+// compareSource orders directives by file path and offset of their source.
+// Directives without a source compare equal to everything.
+func compareSource(has1, has2 bool, ranges func() (syntax.Range, syntax.Range)) compare.Order {
+	if !has1 || !has2 {
+		return compare.Equal
+	}
+	r1, r2 := ranges()
+	if o := compare.Ordered(r1.Path, r2.Path); o != compare.Equal {
+		return o
+	}
+	return compare.Ordered(r1.Start, r2.Start)
 }
 
 type Collection interface {
